@@ -44,21 +44,31 @@ impl Model {
 }
 
 struct Impl {
-    vm: gluon::RootedThread,
+    vm_opt: gluon::RootedThread,
+    vm_noopt: gluon::RootedThread,
     runs: u64,
+}
+fn vm(optimize: bool) -> gluon::RootedThread {
+    mg::run::new_vm_with(&mg::run::VmOptions { prelude: false, optimize: Some(optimize) })
 }
 impl Impl {
     fn new() -> Impl {
-        Impl { vm: mg::run::new_vm(), runs: 0 }
+        Impl { vm_opt: vm(true), vm_noopt: vm(false), runs: 0 }
     }
-    fn run(&mut self, p: &Program, src: &str) -> mg::run::Outcome {
+    /// `opt`: Settings::optimize (true is gluon's default)
+    fn run(&mut self, p: &Program, src: &str, opt: bool) -> mg::run::Outcome {
         self.runs += 1;
-        if self.runs % 1500 == 0 {
+        if self.runs % 3000 == 0 {
             // the compiler database accumulates one file map per source
-            self.vm = mg::run::new_vm();
+            self.vm_opt = vm(true);
+            self.vm_noopt = vm(false);
         }
-        mg::run::run_program(&self.vm, p, src)
+        mg::run::run_program(if opt { &self.vm_opt } else { &self.vm_noopt }, p, src)
     }
+}
+
+fn class_of(canonical: &str) -> String {
+    canonical.split_whitespace().take(2).collect::<Vec<_>>().join(" ")
 }
 
 fn constructs(e: &Expr) -> Vec<&'static str> {
@@ -70,9 +80,9 @@ fn constructs(e: &Expr) -> Vec<&'static str> {
 }
 
 /// the disagreement of one (program, style), if any: (expected = model, observed = impl)
-fn disagreement(imp: &mut Impl, model: &mut Model, p: &Program, st: &Style) -> Option<(String, String)> {
+fn disagreement(imp: &mut Impl, model: &mut Model, p: &Program, st: &Style, opt: bool) -> Option<(String, String)> {
     let src = mg::print::to_gluon(p, st);
-    let o = imp.run(p, &src);
+    let o = imp.run(p, &src, opt);
     if matches!(o.class(), "typecheck" | "parse") {
         return None;
     }
@@ -87,7 +97,10 @@ fn disagreement(imp: &mut Impl, model: &mut Model, p: &Program, st: &Style) -> O
     if m != oc { Some((m, oc)) } else { None }
 }
 
-fn shrink(imp: &mut Impl, model: &mut Model, p: &Program, st: &Style) -> (Program, u32) {
+fn shrink(imp: &mut Impl, model: &mut Model, p: &Program, st: &Style, opt: bool) -> (Program, u32) {
+    // keep the classes of the two outcomes fixed, so that an ill-typed candidate that happens to
+    // disagree for another reason is not accepted
+    let want = disagreement(imp, model, p, st, opt).map(|(e, o)| (class_of(&e), class_of(&o)));
     let mut cur = p.clone();
     let mut steps = 0u32;
     let mut attempts = 0u32;
@@ -100,11 +113,12 @@ fn shrink(imp: &mut Impl, model: &mut Model, p: &Program, st: &Style) -> (Progra
                 break;
             }
             attempts += 1;
-            if attempts > 4000 {
+            if attempts > 6000 {
                 break 'outer;
             }
             let cand = Program { types: cur.types.clone(), expr: c, ty: cur.ty.clone() };
-            if disagreement(imp, model, &cand, st).is_some() {
+            let d = disagreement(imp, model, &cand, st, opt).map(|(e, o)| (class_of(&e), class_of(&o)));
+            if d.is_some() && d == want {
                 cur = cand;
                 steps += 1;
                 continue 'outer;
@@ -148,6 +162,8 @@ fn main() {
         return;
     }
     let args = Args::parse();
+    // panics of the implementation are caught and reported as outcomes; keep stderr quiet
+    std::panic::set_hook(Box::new(|_| {}));
     let mut imp = Impl::new();
     let mut model = args.extra.get("model").map(|p| Model::start(p));
 
@@ -158,7 +174,8 @@ fn main() {
         for st in Style::all() {
             let src = mg::print::to_gluon(&p, &st);
             println!("--- style {}\n{}", st.name(), src);
-            println!("impl: {}", imp.run(&p, &src).canonical());
+            println!("impl (optimize on) : {}", imp.run(&p, &src, true).canonical());
+            println!("impl (optimize off): {}", imp.run(&p, &src, false).canonical());
         }
         if let Some(m) = model.as_mut() {
             println!("model: {}", m.eval(sexp));
@@ -182,7 +199,7 @@ fn main() {
         }
     }
     let n_random: u64 = args.extra.get("random").and_then(|s| s.parse().ok()).unwrap_or(if thorough { 50000 } else { 3000 });
-    let enum_size: usize = args.extra.get("enum_size").and_then(|s| s.parse().ok()).unwrap_or(if thorough { 6 } else { 5 });
+    let enum_size: usize = args.extra.get("enum_size").and_then(|s| s.parse().ok()).unwrap_or(if thorough { 7 } else { 6 });
 
     let mut model_in = args.file("model_in.txt");
     let mut impl_out = args.file("impl_out.txt");
@@ -194,14 +211,16 @@ fn main() {
     let mut n_programs = 0u64;
     let mut rejected = 0u64;
     let mut n_shrunk = 0u32;
+    let mut shrunk_per_class: std::collections::HashMap<String, u32> = std::collections::HashMap::new();
+    let max_shrink: u32 = args.extra.get("max_shrink").and_then(|s| s.parse().ok()).unwrap_or(40);
     let styles = Style::all();
 
     let mut emit = |family: &str, p: &Program, used: &[&'static str], imp: &mut Impl, model: &mut Option<Model>, hist: &mut Hist| {
         let sexp = mg::sexp::program_to_sexp(p);
         let mut any = false;
-        for st in &styles {
+        for (st, opt) in styles.iter().flat_map(|s| [(s, false), (s, true)]) {
             let src = mg::print::to_gluon(p, st);
-            let o = imp.run(p, &src);
+            let o = imp.run(p, &src, opt);
             if o.class() == "typecheck" {
                 // not a well-typed program as far as gluon is concerned: outside C01's domain
                 rejected += 1;
@@ -212,20 +231,38 @@ fn main() {
             let oc = o.canonical();
             writeln!(model_in, "{}", sexp).unwrap();
             writeln!(impl_out, "{}", oc).unwrap();
-            writeln!(cases, "{}", serde_json::json!({"family": family, "style": st.name(), "source": src, "sexp": sexp})).unwrap();
+            // the s-expression is line i of model_in.txt; keep the (bulky, mostly indentation)
+            // source text only for small programs and for the first cases of a run
+            if src.len() < 600 || n_cases < 400 {
+                writeln!(cases, "{}", serde_json::json!({"family": family, "style": st.name(), "optimize": opt, "source": src})).unwrap();
+            } else {
+                writeln!(cases, "{}", serde_json::json!({"family": family, "style": st.name(), "optimize": opt})).unwrap();
+            }
             n_cases += 1;
             hist.add(&format!("family:{}", family));
             hist.add(&format!("style:{}", st.name()));
+            hist.add(if opt { "optimize:on" } else { "optimize:off" });
             hist.add(&format!("impl:{}", o.class()));
             if let Some(m) = model.as_mut() {
                 let mo = m.eval(&sexp);
-                if mo != oc && mo != "(fuel)" && n_shrunk < 12 {
+                let prov = if mo != oc {
+                    let msg: String = oc.split("hostpanic: ").nth(1).unwrap_or("").chars().take(20).collect();
+                    format!("{}:{}:{}:{}", classify_pair(&mo, &oc), opt, class_of(&mo), msg)
+                } else {
+                    String::new()
+                };
+                if mo != oc && mo != "(fuel)" && n_shrunk < max_shrink && *shrunk_per_class.entry(prov.clone()).or_insert(0u32) < 2 {
+                    *shrunk_per_class.get_mut(&prov).unwrap() += 1;
                     n_shrunk += 1;
-                    let (small, steps) = shrink(imp, m, p, st);
-                    let (e2, o2) = disagreement(imp, m, &small, st).unwrap_or((mo.clone(), oc.clone()));
+                    let (small, steps) = shrink(imp, m, p, st, opt);
+                    let (e2, o2) = disagreement(imp, m, &small, st, opt).unwrap_or((mo.clone(), oc.clone()));
+                    // does the disagreement need the optimiser?
+                    let optimizer_only = opt && disagreement(imp, m, &small, st, false).is_none();
                     let line = serde_json::json!({
                         "index": n_cases - 1,
                         "style": st.name(),
+                        "optimize": opt,
+                        "optimizer_only": optimizer_only,
                         "kind": classify_pair(&e2, &o2),
                         "constructs": constructs(&small.expr),
                         "source": mg::print::to_gluon(&small, st),
@@ -306,7 +343,7 @@ fn main() {
             "evaluations": n_cases,
             "programs": n_programs,
             "distinct_nontrivial": distinct.len(),
-            "rule": "a case is (program, printer style); distinct non-trivial = distinct programs (by s-expression) with more than one AST node and at least one binder (lambda, let, rec or a binding pattern)",
+            "rule": "a case is (program, printer style, optimize on/off); distinct non-trivial = distinct programs (by s-expression) with more than one AST node and at least one binder (lambda, let, rec or a binding pattern)",
             "rejected_by_typechecker": rejected,
             "exhaustive_max_size": enum_size,
             "exhaustive_programs": n_enum,
